@@ -55,8 +55,7 @@ class Rms:
         # after the optional cast the scale must have the type of `normalized` (tdt)
         eps_kind = rng.choice(["s", "s", "s", "v1", "m11", "input", "v2", "int"])
         sshape = rng.choice([[D], [D], [D], [1], [], xshape[-2:] if rank >= 2 else [D], list(xshape)])
-        if rng.random() < 0.06:
-            sshape = [2] + list(xshape)  # scale of higher rank than x (must not fuse)
+        hi_rank_scale = rng.random() < 0.07
         c = {
             "fam": "rms", "xshape": xshape, "xdt": xdt, "cast_in": cast_in, "cdt": cdt, "cast_out": cast_out,
             "tdt": tdt, "scale_cast": scale_cast, "sdt": sdt, "mul_order": rng.random() < 0.5,
@@ -70,6 +69,8 @@ class Rms:
         if rng.random() < 0.45:  # structurally nominal instance: only the dtype / cast / order knobs vary
             c.update(inner_swap=False, eps_kind=rng.choice(["s", "v1"]), axes=[-1], pow=2.0, pow_rank1=False,
                      keepdims=1, noop=0, sshape=[D])
+        if hi_rank_scale:
+            c["sshape"] = [2] + list(xshape)  # scale of higher rank than x (must not fuse)
         return c
 
     @staticmethod
@@ -209,6 +210,10 @@ class Skip:
             # low-magnitude rows (mean square / variance ~1e-6) make the epsilon the fused node carries observable
             "mag": rng.choice([1.0, 1.0, 1e-3]),
         }
+        if rng.random() < 0.14:  # directed: the DEFAULT epsilon must be observable (low-magnitude float32 rows)
+            c.update(in_shape=list(base), skip_shape=list(base), gamma_shape=[D], beta_shape=[D], bias_shape=[D],
+                     bias_first=False, stash=rng.choice([None, 1]), axis=-1, no_beta=False, eps=None, mag=1e-3, dt="f32")
+            return c
         if rng.random() < 0.4:  # nominal shapes / attributes: only bias placement, orders, eps, dtype vary
             c.update(in_shape=list(base), skip_shape=list(base), gamma_shape=[D], beta_shape=[D], bias_shape=[D],
                      bias_first=False, stash=rng.choice([None, 1]), axis=-1, no_beta=False)
@@ -554,6 +559,35 @@ class Fmm:
              "perm": perm_named(pk, rank), "cst_shape": rng.choice([[], [], [1], [1, 1], [2]]),
              "cst": rng.choice([2.0, 0.5, 8.0, -3.0, 1.0]), "cst_const": rng.random() < 0.9,
              "noncube": False}
+        # directed: Transpose AFTER the product, rank 2 (the only case (Fused)MatMulTranspose accepts)
+        if rng.random() < 0.06:
+            if inner is not None:
+                inner.update(transBatchA=None, transBatchB=None)
+            pk = rng.choice(["swap", "none"])
+            c.update(kind="mt", rank=2, perm_kind=pk, perm=perm_named(pk, 2))
+            return c
+        # directed: the three batch-transpose rules on equal-rank operands
+        if rng.random() < 0.10:
+            kind = rng.choice(["t1", "t2"])
+            rank = rng.choice([3, 4])
+            tb = rng.choice([None, 0, 1])
+            pk = rng.choice(["bp", "rotL"] if not tb else ["bpinv", "rotR", "sw0L"])
+            inner = {"transA": rng.choice([None, 0, 1]), "transB": rng.choice([None, 0, 1]), "transBatchA": None,
+                     "transBatchB": None, "alpha": rng.choice([None, 0.5])}
+            inner["transBatchA" if kind == "t1" else "transBatchB"] = tb
+            c.update(kind=kind, rank=rank, inner=inner, perm_kind=pk, perm=perm_named(pk, rank))
+            return c
+        # directed: a perm-less Transpose (reverses every axis) next to an operand of another rank — the rule must
+        # look at the rank of the TRANSPOSED operand (x for the first-operand rules, y for the second-operand rules)
+        if rng.random() < 0.14:
+            kind = rng.choice(["t1", "t2"])
+            hi = rng.choice([3, 3, 4])
+            tr_rank, other = rng.choice([(hi, 2), (2, hi)])
+            xr, yr = (tr_rank, other) if kind == "t1" else (other, tr_rank)
+            if inner is not None:
+                inner.update(transBatchA=None, transBatchB=None)
+            c.update(kind=kind, xrank=xr, yrank=yr, perm_kind="none", perm=None)
+            return c
         # mixed ranks (2 vs >= 3, both operand positions), incl. perm-less Transposes that reverse every axis
         if kind in ("t1", "t2", "mt") and rng.random() < 0.35:
             xr, yr = rng.choice([(2, 3), (3, 2), (2, 4), (4, 2), (3, 4)])
@@ -971,7 +1005,9 @@ class Mha:
                                                                   "B,H,S,St", "1,1,1,St", "1,St", "St", "1,H,1,St"]),
                 "scale": rng.choice(["default", "default", "custom", "none"]), "sym": rng.random() < 0.25,
                 "q_perm": rng.choice([[0, 2, 1, 3]] * 9 + [[0, 1, 2, 3]]), "kH": rng.choice(["same"] * 8 + ["one"]),
-                "dt": "f32", "rotary": rng.random() < 0.3, "rot_il": rng.choice([None, None, 1])}
+                "dt": "f32", "rotary": rng.random() < 0.3, "rot_il": rng.choice([None, None, 1]),
+                # cross-attention: key/value arrive already as (B,H,Skv,Dh) (e.g. an encoder cache)
+                "cross": (not past) and rng.random() < 0.2}
 
     @staticmethod
     def build(c):
@@ -980,16 +1016,20 @@ class Mha:
         D = H * Dh
         Bs = "B" if c["sym"] else B
         q = g.inp("query", "f32", [Bs, S, D])
-        k = g.inp("key", "f32", [Bs, Skv, D])
-        v = g.inp("value", "f32", [Bs, Skv, D])
+        cross = bool(c.get("cross"))
+        k = g.inp("key", "f32", [Bs, H, Skv, Dh] if cross else [Bs, Skv, D])
+        v = g.inp("value", "f32", [Bs, H, Skv, Dh] if cross else [Bs, Skv, D])
         shp = lambda s: g.const(np.array(s, dtype=np.int64))
         q4 = g.op("Reshape", q, shp([0, 0, H, Dh]), name="q4")
         qh = g.op("Transpose", q4, perm=c["q_perm"])
-        k4 = g.op("Reshape", k, shp([0, 0, H, Dh]), name="k4")
-        v4 = g.op("Reshape", v, shp([0, 0, H, Dh]), name="v4")
-        vh = g.op("Transpose", v4, perm=[0, 2, 1, 3])
+        if cross:
+            k4, vh = None, v
+        else:
+            k4 = g.op("Reshape", k, shp([0, 0, H, Dh]), name="k4")
+            v4 = g.op("Reshape", v, shp([0, 0, H, Dh]), name="v4")
+            vh = g.op("Transpose", v4, perm=[0, 2, 1, 3])
         St = Skv + P
-        rot = c.get("rotary") and Dh % 2 == 0
+        rot = c.get("rotary") and Dh % 2 == 0 and not cross
 
         def rope(x4, name, seq):
             import onnx.helper as oh_
@@ -1004,7 +1044,9 @@ class Mha:
             g.inp("cos", "f32", [S + 4, Dh // 2])
             g.inp("sin", "f32", [S + 4, Dh // 2])
             qh = rope(qh, "q_rope", S)
-        if c["key_t"] or c["past"] or rot:
+        if cross:
+            kt = g.op("Transpose", k, perm=[0, 1, 3, 2])
+        elif c["key_t"] or c["past"] or rot:
             kh = g.op("Transpose", k4, perm=[0, 2, 1, 3])
             if rot:
                 kh = rope(kh, "k_rope", Skv)
@@ -1043,8 +1085,8 @@ class Mha:
     @staticmethod
     def line(c, shapes=None):
         sh = shapes or {}
-        rot = c.get("rotary") and c["Dh"] % 2 == 0
-        parts = ["mha", f"past={b(c['past'])}", f"key_t={b(c['key_t'] or c['past'] or rot)}", f"rotary={b(rot)}", f"rot_il={c.get('rot_il') or 0}",
+        rot = c.get("rotary") and c["Dh"] % 2 == 0 and not c.get("cross")
+        parts = ["mha", f"past={b(c['past'])}", f"cross={b(c.get('cross'))}", f"key_t={b(c['key_t'] or c['past'] or rot)}", f"rotary={b(rot)}", f"rot_il={c.get('rot_il') or 0}",
                  f"q_perm_ok={b(c['q_perm'] == [0, 2, 1, 3])}",
                  "scale=" + {"default": "none", "custom": fbits(f32(0.3)), "none": fbits(1.0)}[c["scale"]]]
         for n in ("query", "key", "value", "q4", "past_key", "past_value", "mask"):
@@ -1073,15 +1115,15 @@ class Mha:
     def feeds(c, rng):
         B, S, Skv, H, Dh, P = (c[k] for k in ("B", "S", "Skv", "H", "Dh", "P"))
         D = H * Dh
-        f = {"query": rand_arr(rng, [B, S, D], "f32"), "key": rand_arr(rng, [B, Skv, D], "f32"),
-             "value": rand_arr(rng, [B, Skv, D], "f32")}
+        kv = [B, H, Skv, Dh] if c.get("cross") else [B, Skv, D]
+        f = {"query": rand_arr(rng, [B, S, D], "f32"), "key": rand_arr(rng, kv, "f32"), "value": rand_arr(rng, kv, "f32")}
         if c["past"]:
             f["past_key"] = rand_arr(rng, [B, H, P, Dh], "f32")
             f["past_value"] = rand_arr(rng, [B, H, P, Dh], "f32")
         if c["mask"] != "none":
             env = {"B": B, "H": H, "S": S, "St": Skv + P, "1": 1}
             f["mask"] = rand_arr(rng, [env[t] for t in c["mask"].split(",")], "f32")
-        if c.get("rotary"):
+        if c.get("rotary") and not c.get("cross"):
             f["position_ids"] = np.tile(np.arange(S, dtype=np.int64), (B, 1))
             f["cos"] = rng.random((S + 4, max(Dh // 2, 1))).astype(np.float32)
             f["sin"] = rng.random((S + 4, max(Dh // 2, 1))).astype(np.float32)
